@@ -490,6 +490,7 @@ func runC20(c *worker.Ctx) {
 	var rd *simio.Reader
 	var plan simio.Plan
 	injected := map[string]bool{}
+	harnessFail := ""
 	loopEvery := 0
 	// Remote path, a third of the cases: the run's outcome goes through the
 	// fetcher's on-disk cache and a second, fault-free run follows.
@@ -572,8 +573,12 @@ func runC20(c *worker.Ctx) {
 			rd = simio.NewReader(data, plan, c.T)
 			s.Go("terraform", func() {
 				defer func() {
-					if v := recover(); v != nil && panicV == nil {
-						panicV, panicWhere = v, innermostFalcoFrame(3)
+					if v := recover(); v != nil {
+						if hp, ok := v.(harnessPanic); ok {
+							harnessFail = string(hp)
+						} else if panicV == nil {
+							panicV, panicWhere = v, innermostFalcoFrame(3)
+						}
 					}
 					done <- struct{}{}
 				}()
@@ -636,8 +641,12 @@ func runC20(c *worker.Ctx) {
 			defer func() { http.DefaultTransport = old }()
 			s.Go("fetch", func() {
 				defer func() {
-					if v := recover(); v != nil && panicV == nil {
-						panicV, panicWhere = v, innermostFalcoFrame(3)
+					if v := recover(); v != nil {
+						if hp, ok := v.(harnessPanic); ok {
+							harnessFail = string(hp)
+						} else if panicV == nil {
+							panicV, panicWhere = v, innermostFalcoFrame(3)
+						}
 					}
 					done <- struct{}{}
 				}()
@@ -695,6 +704,9 @@ func runC20(c *worker.Ctx) {
 	simhook.UninstallPanicHook()
 	simmap.Uninstall()
 	simhook.SetLoopEvery(0)
+	if harnessFail != "" {
+		panic("harness error inside a task: " + harnessFail)
+	}
 	if loopEvery > 0 {
 		res.Probe("preempted_inside_rendering_loops")
 	}
@@ -897,13 +909,23 @@ func keysOf(m map[string]bool) []string {
 	return ks
 }
 
+// cloneResources copies the resource set (mustJSON is for rendering: it clips).
 func cloneResources(r *simnet.Resources) *simnet.Resources {
 	var out simnet.Resources
-	if err := json.Unmarshal(mustJSON(r), &out); err != nil {
-		panic("c20: cannot clone the resource set: " + err.Error())
+	b, err := json.Marshal(r)
+	if err == nil {
+		err = json.Unmarshal(b, &out)
+	}
+	if err != nil {
+		panic(harnessPanic("c20: cannot clone the resource set: " + err.Error()))
 	}
 	return &out
 }
+
+// harnessPanic marks a panic raised by the harness itself inside a task that
+// also runs code under test: it is re-raised outside the bubble (machinery
+// trouble, exit 2) and never attributed to falco.
+type harnessPanic string
 
 // editUnversioned changes something Fastly does not version: a dictionary
 // item's value, or an ACL entry. It says what it did.
